@@ -62,7 +62,8 @@ let d_un = function A "not" -> UNot | A "neg" -> UNeg | A "len" -> ULen | x -> b
 let d_bin = function
   | A "plus" -> BPlus | A "minus" -> BMinus | A "mal" -> BMal | A "durch" -> BDurch | A "mod" -> BMod
   | A "lt" -> BKleiner | A "gt" -> BGroesser | A "eq" -> BGleich | A "ne" -> BUngleich
-  | A "and" -> BUnd | A "or" -> BOder | A "idx" -> BStelle | x -> bad "binop" x
+  | A "and" -> BUnd | A "or" -> BOder | A "idx" -> BStelle
+  | A "cat" -> BVerkettet | A "from" -> BAb | A "upto" -> BBis | x -> bad "binop" x
 let rec d_expr = function
   | L [A "lit"; l] -> ELit (d_lit l)
   | L [A "empty"; t] -> EEmpty (d_ty t)
@@ -72,12 +73,19 @@ let rec d_expr = function
   | L [A "cast"; e; t] -> ECast (d_expr e, d_ty t)
   | L [A "field"; f; e] -> EField (d_name f, d_expr e)
   | L (A "call" :: f :: a) -> ECall (d_name f, d_args a)
+  | L [A "slice"; l; i; j] -> ESlice (d_expr l, d_expr i, d_expr j)
+  | L (A "list" :: e :: a) -> EList (d_expr e, d_args a)
   | x -> bad "expr" x
 and d_args = function [] -> ANil | e :: r -> ACons (d_expr e, d_args r)
 let rec d_stmt = function
   | L [A "svar"; a; t; x; e] -> SVar (d_art a, d_ty t, d_name x, d_expr e)
   | L [A "sconst"; a; x; l] -> SConst (d_art a, d_name x, d_lit l)
   | L [A "assign"; x; e] -> SAssign (d_name x, d_expr e)
+  | L [A "assignidx"; x; i; e] -> SAssignIdx (d_name x, d_expr i, d_expr e)
+  | L [A "assignfield"; f; x; e] -> SAssignField (d_name f, d_name x, d_expr e)
+  | L [A "foreach"; a; t; x; e; b] -> SForEach (d_art a, d_ty t, d_name x, d_expr e, d_block b)
+  | L [A "repeat"; b; n] -> SRepeat (d_block b, d_expr n)
+  | L [A "dowhile"; b; c] -> SDoWhile (d_block b, d_expr c)
   | L [A "if"; c; th; el] -> SIf (d_expr c, d_block th, d_block el)
   | L [A "while"; c; b] -> SWhile (d_expr c, d_block b)
   | L [A "for"; a; t; x; f; to_; st; b] ->
@@ -136,6 +144,7 @@ let e_bin = function
   | BPlus -> A "plus" | BMinus -> A "minus" | BMal -> A "mal" | BDurch -> A "durch" | BMod -> A "mod"
   | BKleiner -> A "lt" | BGroesser -> A "gt" | BGleich -> A "eq" | BUngleich -> A "ne"
   | BUnd -> A "and" | BOder -> A "or" | BStelle -> A "idx"
+  | BVerkettet -> A "cat" | BAb -> A "from" | BBis -> A "upto"
 let rec e_expr = function
   | ELit l -> L [A "lit"; e_lit l]
   | EEmpty t -> L [A "empty"; e_ty t]
@@ -145,11 +154,18 @@ let rec e_expr = function
   | ECast (e, t) -> L [A "cast"; e_expr e; e_ty t]
   | EField (f, e) -> L [A "field"; e_name f; e_expr e]
   | ECall (f, a) -> L (A "call" :: e_name f :: e_args a)
+  | ESlice (l, i, j) -> L [A "slice"; e_expr l; e_expr i; e_expr j]
+  | EList (e, a) -> L (A "list" :: e_expr e :: e_args a)
 and e_args = function ANil -> [] | ACons (e, a) -> e_expr e :: e_args a
 let rec e_stmt = function
   | SVar (a, t, x, e) -> L [A "svar"; e_art a; e_ty t; e_name x; e_expr e]
   | SConst (a, x, l) -> L [A "sconst"; e_art a; e_name x; e_lit l]
   | SAssign (x, e) -> L [A "assign"; e_name x; e_expr e]
+  | SAssignIdx (x, i, e) -> L [A "assignidx"; e_name x; e_expr i; e_expr e]
+  | SAssignField (f, x, e) -> L [A "assignfield"; e_name f; e_name x; e_expr e]
+  | SForEach (a, t, x, e, b) -> L [A "foreach"; e_art a; e_ty t; e_name x; e_expr e; e_block b]
+  | SRepeat (b, n) -> L [A "repeat"; e_block b; e_expr n]
+  | SDoWhile (b, c) -> L [A "dowhile"; e_block b; e_expr c]
   | SIf (c, th, el) -> L [A "if"; e_expr c; e_block th; e_block el]
   | SWhile (c, b) -> L [A "while"; e_expr c; e_block b]
   | SFor (a, t, x, f, to_, st, b) ->
@@ -201,7 +217,8 @@ let fault_name = function
   | FWrongAssign -> "FWrongAssign" | FWrongCond -> "FWrongCond" | FWrongBound -> "FWrongBound"
   | FWrongReturn -> "FWrongReturn" | FConstAssign -> "FConstAssign" | FConstRef -> "FConstRef"
   | FBreakOutside -> "FBreakOutside" | FMissingReturn -> "FMissingReturn" | FPrivate -> "FPrivate"
-  | FArticle -> "FArticle"
+  | FArticle -> "FArticle" | FConstElem -> "FConstElem" | FWrongElemValue -> "FWrongElemValue"
+  | FWrongIter -> "FWrongIter" | FWrongListElem -> "FWrongListElem"
 
 let verdicts p = Printf.sprintf "%d %s %s" (if wfb p then 1 else 0) (diags (check p)) (diags (check_pinned p))
 
